@@ -1852,6 +1852,53 @@ RUNNERS["registry"] = run_registry
 RUNNERS["object_dip"] = run_object_dip
 
 
+def fixed_cases():
+    """a fixed block (independent of VERIF_SEED) that enumerates the input classes earlier misses had in common, so that their
+    coverage never depends on the seed: rejected calls of each kind followed by a valid re-initialisation; one of two / three live
+    models switched to the non-default value of each property-relevant key, the OTHER model and a model built later read;
+    exact zeros / infinities in the raw array of each complex object type, mask applied or not."""
+    from qv.prng import Rng
+    out = []
+    k = 0
+    for n in (2, 3):
+        for bad in ({"op": "set_weights_bad", "w": [2.0], "cont": "list"}, {"op": "set_weights_bad", "w": [1.0] * (n + 1), "cont": "np64"},
+                    {"op": "set_weights_bad", "w": [], "cont": "list"}, {"op": "set_initial_bad", "why": "M0", "M": 1.0},
+                    {"op": "set_initial_bad", "why": "Mneg", "M": 7.0}, {"op": "set_initial_bad", "why": "roi", "M": 5.0},
+                    {"op": "set_probe_bad", "why": "modes+"}, {"op": "set_probe_bad", "why": "cols+"}, {"op": "cons_bad"}):
+            for prec in ("f64", "f32"):
+                rng = Rng(1000 + k)
+                k += 1
+                H, W = 3, 2 + n
+                first = [{"op": "set_initial", "M": 50.0, "mkind": "float"}] if k % 2 else []
+                out.append({"stream": "probe_ops", "prec": prec, "n": n, "roi": [H, W], "w": [float(n - i) for i in range(n)] if k % 3 else None,
+                            "wcont": "list", "seed": 4242 + k, "inp": {"layout": "c", "container": "np", "width": 64},
+                            "stack": cx_to_list(gen_stack(rng, n, H, W, prec)),
+                            "ops": first + [bad, {"op": "set_initial", "M": 12.5, "mkind": "float"}], "fixed": True})
+    for cls in ("object", "probe", "tomo"):
+        for (key, v) in REG_FLIP[cls]:
+            for how in ("add", "set"):
+                for t in (("complex", "pure_phase", "potential") if cls == "object" else ("potential",)):
+                    pre = [{"op": "add", "i": j, "k": "positivity", "v": True} for j in range(2)] if cls == "tomo" else []
+                    flip = {"op": "add", "i": 0, "k": key, "v": v} if how == "add" else {"op": "set", "i": 0, "items": [[key, v]]}
+                    k += 1
+                    out.append({"stream": "registry", "prec": "f64" if k % 2 else "f32", "cls": cls, "type": t, "n0": 2,
+                                "ops": pre + [flip, {"op": "add", "i": 0, "k": "bogus_key", "v": True}, {"op": "new"}],
+                                "shape": [2, 2, 3], "n": 2 + k % 2, "roi": [3, 4], "rawseed": 900 + k, "route": "obj", "fixed": True})
+    inf = float("inf")
+    for t in ("complex", "pure_phase"):
+        for fov in (False, True):
+            for prec in ("f64", "f32"):
+                for raw in ([0j, 1 + 1j, complex(-0.0, 0.0), 0.3 - 2j], [0j] * 4, [complex(inf, 0.0), 1j, complex(-inf, inf), 0.5 + 0j],
+                            [complex(0.0, -0.0), complex(-0.0, -0.0), -1 + 0j, complex(1e30, 1e30)]):
+                    out.append({"stream": "object", "prec": prec, "type": t, "shape": [1, 2, 2], "route": "obj",
+                                "cons": {"apply_fov_mask": fov, "identical_slices": False, "positivity": True, "fix_potential_baseline": False,
+                                         "fix_potential_baseline_factor": 1.0},
+                                "inp": {"layout": "c", "container": "np", "width": 64}, "minp": {"layout": "c", "container": "np", "width": 64},
+                                "special": True, "fkind": "float", "thk": "float", "raw": cx_to_list(np.array(raw)),
+                                "mask": {"shape": [2, 2], "v": [1.0, 0.5, 0.0, 1.0]}, "fixed": True})
+    return out
+
+
 def _in_real_code(e):
     import os
     import traceback
@@ -1885,6 +1932,9 @@ def run(ctx):
         if not ctx.search_mode:
             run_case(ctx, drv, "object", CEX_CASE)
             run_case(ctx, drv, "gs_clamp", CLAMP_CASE)
+        for case in fixed_cases():          # the same block for every seed (and again in the failing-input search)
+            ctx.dist[f"fixed-block:{case['stream']}"] += 1
+            run_case(ctx, drv, case["stream"], case)
         plan = [("object", ctx.n(260, 20000)), ("tomo", ctx.n(30, 1000)), ("gs", ctx.n(110, 8000)),
                 ("gs_exact", ctx.n(60, 5000)), ("weights", ctx.n(90, 6000)), ("pipeline", ctx.n(8, 60)),
                 ("cons_history", ctx.n(80, 3000)), ("probe_history", ctx.n(50, 2000)),
